@@ -65,6 +65,7 @@ def main(argv=None):
     ap.add_argument("--only", help="run only obligations whose name contains this")
     ap.add_argument("--jobs", type=int, default=int(os.environ.get("VERIF_JOBS", "16")))
     ap.add_argument("--no-evidence", action="store_true")
+    ap.add_argument("--timeout", type=float, help="override per-partition timeout (testing)")
     a = ap.parse_args(argv)
     sys.path.insert(0, VERIF)
     from . import registry
@@ -87,6 +88,9 @@ def main(argv=None):
     if not obligations:
         print("no obligations for", prop)
         return 3
+    if a.timeout:
+        for o in obligations:
+            o["timeout"] = a.timeout
 
     # ---- known findings: is each listed defect still present? (witness replay, mask off)
     active = []
